@@ -410,9 +410,49 @@ def _config_case(draw):
     return {"spec": spec}
 
 
+@st.composite
+def _many_case(draw):
+    """datasets at and beyond 100 mazes (the size at which storage formats switch), generated, with per-maze metadata still attached"""
+    spec = {"name": "many", "grid_n": draw(st.sampled_from([3, 4])), "n_mazes": draw(st.sampled_from([100, 130, 101, 99])), "ctor": draw(st.sampled_from(["gen_dfs", "gen_dfs_percolation"])),
+            "kwargs": {}, "seed": draw(st.integers(0, 10**6))}
+    ops = draw(st.lists(_op(spec["grid_n"], 12), min_size=1, max_size=3))
+    return {"many": spec, "ops": ops}
+
+
+def check_many(case: dict):
+    from maze_dataset import MazeDataset
+
+    ds = MazeDataset.generate(L.make_cfg(case["many"]))
+    items = [{"g": L.g_of(m), "sol": [list(q) for q in L.as_cells(m.solution)]} for m in ds.mazes]
+    applied, interesting, labels, _, _ = run_sequence(ds, items, case["ops"], sig="C08:many")
+    return {"nt": applied >= 1, "labels": labels + [f"n:{case['many']['n_mazes']}"]}
+
+
+@st.composite
+def _far_case(draw):
+    """mazes on grids of 65..127 cells per side whose endpoints are up to 2(n-1) apart, coordinates stored as int8 (what loading a
+    minimal-format file gives)"""
+    n = draw(st.sampled_from([65, 100, 127, 64]))
+    items = []
+    for _ in range(draw(st.integers(2, 4))):
+        base = draw(G.big_int8_case(sizes=(n,)))
+        a = M.adj(base["g"])
+        if draw(st.booleans()):
+            # opposite corners along the corridors
+            sol = M.shortest_path(a, (0, 0), (n - 1, n - 1 if n % 2 else 0))
+            items.append({"g": base["g"], "sol": [list(q) for q in sol][: draw(st.sampled_from([400, 2000, 10**6]))], "dtype": "int8", "view": False})
+        else:
+            items.append({"g": base["g"], "sol": base["sol"], "dtype": draw(st.sampled_from(["int8", None])), "view": False})
+    ops = [{"f": "start_end_distance", "params": {"min_distance": draw(st.sampled_from([1, 100, 127, 128, 129, 200, 250]))}, "positional": draw(st.booleans())}]
+    ops += draw(st.lists(_op(n, len(items)), max_size=2))
+    return {"n": n, "items": items, "meta": "none", "ops": ops}
+
+
 def subs(tier: str):
     q = tier == "quick"
     return [
         Sub("sequences", check, "hypothesis", strategy=lambda: _case(5, 6 if q else 10), examples=40 if q else 3000),
+        Sub("datasets-of-100-and-more", check_many, "hypothesis", strategy=_many_case, examples=2 if q else 30),
+        Sub("far-apart-endpoints-int8", check, "hypothesis", strategy=_far_case, examples=2 if q else 20),
         Sub("config-driven", check_config_driven, "hypothesis", strategy=_config_case, examples=20 if q else 1500),
     ]
